@@ -469,7 +469,8 @@ class Formatter:
 
             return validated
 
-        if parsed["quarter"] is not None:
+        # A quarter stands for its first day only where the format names no month
+        if parsed["quarter"] is not None and parsed["month"] is None:
             if validated["year"] is not None:
                 dt = pendulum.datetime(cast(int, validated["year"]), 1, 1)
             else:
